@@ -338,9 +338,17 @@ def r4_placement(ctx, chk, rule="C09.4"):
                           construct="%s overrides check_next_states" % cls)
 
 
-def r5_batch_runner(ctx, chk, rule="C09.5"):
-    f = ctx.func("conditionalrewards.py::run_games")
+def r5_batch_runner(ctx, chk, rule="C09.5", holder=None):
+    run = ctx.func("conditionalrewards.py::run_games")
+    f = holder or run
     solve_calls = C02.calls_of(f, "solve")
+    if not solve_calls and holder is None:
+        # the solve call may live in a helper of the same module
+        for g in ctx.cg.reachable([run]):
+            if g is not run and g.mod is run.mod and C02.calls_of(g, "solve"):
+                f = g
+                solve_calls = C02.calls_of(g, "solve")
+                break
     if len(solve_calls) != 1:
         chk.undecided(rule, f.where(), "%d solve() calls in run_games" % len(solve_calls))
         return
@@ -367,14 +375,16 @@ def r5_batch_runner(ctx, chk, rule="C09.5"):
         chk.violation(rule, f.where(h), "the handler re-raises: a rejected game still crashes the batch", expected="record the message, continue",
                       found="raise in handler", construct="run_games handler re-raises")
         return
-    if any(isinstance(x, (ast.Break, ast.Return)) for s in h.body for x in ast.walk(s)):
+    leaves = [x for s in h.body for x in ast.walk(s) if isinstance(x, ast.Break) or (isinstance(x, ast.Return) and f is run)]
+    if leaves:
         chk.violation(rule, f.where(h), "the handler leaves the loop / function: remaining games are not run", expected="continue with the next game",
                       found="break/return in handler", construct="run_games handler exits")
         return
     msg_ok = False
     for s in h.body:
-        if isinstance(s, ast.Assign) and any(isinstance(t, ast.Name) and t.id == "msg" for t in s.targets):
-            names = {x.id for x in ast.walk(s.value) if isinstance(x, ast.Name)}
+        val = s.value if isinstance(s, (ast.Assign, ast.Return)) else None
+        if val is not None and not (isinstance(s, ast.Expr)):
+            names = {x.id for x in ast.walk(val) if isinstance(x, ast.Name)}
             if h.name and h.name in names:
                 msg_ok = True
     if msg_ok:
@@ -383,7 +393,7 @@ def r5_batch_runner(ctx, chk, rule="C09.5"):
     else:
         chk.violation(rule, f.where(h), "the handler does not record the exception text in the entry's message", expected="msg = f'...{e}'",
                       found=[norm_stmt(s) for s in h.body], construct="run_games handler message")
-    pre_validation_dereference(ctx, chk, rule, f, tr)
+    pre_validation_dereference(ctx, chk, rule, run, tr if f is run else None)
 
 
 def _contains(stmt, node):
@@ -405,7 +415,7 @@ def pre_validation_dereference(ctx, chk, rule, f, tr):
     # repository functions called from the loop body outside the try
     outside = []
     for call, callees in ctx.cg.call_sites(f):
-        if any(_contains(s, call) for s in tr.body) or any(_contains(hh, call) for hh in tr.handlers):
+        if tr is not None and (any(_contains(s, call) for s in tr.body) or any(_contains(hh, call) for hh in tr.handlers)):
             continue
         for g in callees:
             if g.cls is not None and g.cls.name == game_cls:
